@@ -57,6 +57,50 @@ func registerModels(e *Engine) {
 		a.havocAllHeaps(st)
 		return res
 	}
+	// gchan.SendC(ctx, log, out, val, during): sends val on out (or gives up on cancellation): the channel invariant of
+	// out is an obligation exactly as for a plain send statement.
+	sendC := func(a *Act, st *State, args []Val, resT types.Type, pos token.Pos) Val {
+		res := a.freshVal("sent", resT)
+		if a.curCall != nil && len(a.curCall.Args) >= 4 && len(args) >= 4 {
+			a.chanSend(st, args[2], args[3], a.curCall.Args[2], pos)
+		}
+		return res
+	}
+	// slices.IndexFunc / ContainsFunc with a closure defined in the verified code: the closure is evaluated
+	// symbolically on the reported element (a found index satisfies the predicate).
+	indexFunc := func(contains bool) modelFn {
+		return func(a *Act, st *State, args []Val, resT types.Type, pos token.Pos) Val {
+			vc := a.vc
+			sl := args[0]
+			idx := a.freshVal("idxfn", types.Typ[types.Int])
+			s := vc.define("ifs", sSlice, sl.S)
+			vc.assume("true", fmt.Sprintf("(and (<= (- 1) %s) (< %s (sl_len %s)))", idx.S, idx.S, s))
+			found := "(>= " + idx.S + " 0)"
+			if len(args) > 1 && args[1].Fn != nil && args[1].Fn.Fn != nil && a.depth < 4 {
+				if et, ok := sl.T.Underlying().(*types.Slice); ok {
+					sc := st.clone()
+					sc.guard = vc.define("ifg", sBool, and(st.guard, found))
+					addr := fmt.Sprintf("(elem (sl_arr %s) (+ (sl_off %s) %s))", s, s, idx.S)
+					elem := a.loadAt(sc, addr, et.Elem())
+					wl := a.writeLog
+					r := a.inline(sc, args[1].Fn.Fn, args[1].Fn.Bindings, []Val{elem}, types.Typ[types.Bool], pos)
+					a.writeLog = wl
+					if r.Sort == sBool {
+						vc.assume(sc.guard, r.S)
+					}
+				}
+			}
+			if contains {
+				return Val{S: found, Sort: sBool, T: resT}
+			}
+			idx.T = resT
+			return idx
+		}
+	}
+	e.models["slices.IndexFunc"] = indexFunc(false)
+	e.models["slices.ContainsFunc"] = indexFunc(true)
+	e.models[e.modPath+"/internal/gchan.SendC"] = sendC
+	e.models[e.modPath+"/internal/gchan.SendCLogBlocked"] = sendC
 	e.models["sync.RWMutex.Lock"] = lock("2", true)
 	e.models["sync.RWMutex.Unlock"] = lock("2", false)
 	e.models["sync.RWMutex.RLock"] = lock("1", true)
